@@ -4,6 +4,7 @@
  * stdin:  pool <threads> <queueSize>
  *         client <op> <op> ...        ops: add:J tryadd:J join resize:N free     (one line per client thread; client 0 = main)
  *         body <J> <op> ...           ops: add:J tryadd:J                          (what job J does when it runs)
+ *                                     waitfree : the job waits until the freeing client is inside POOL_free (no pool call; the posts that follow race with the shutdown)
  *         run <seed> <perturb>        perturb: 0 none, 1 random yields/sleeps before every primitive
  * stdout: one event per line, in the order the critical sections really happened:
  *         sec <thread> <acts,...|-> <head> <tail> <empty> <busy> <limit> <cap> <shutdown>
@@ -130,6 +131,8 @@ typedef struct { op_t ops[MAXOPS]; int n; } prog_t;
 static prog_t g_clients[8]; static int g_nclients;
 static prog_t g_body[MAXJ];
 static int g_execCount[MAXJ], g_doneCount[MAXJ], g_acceptedCount[MAXJ];
+static int g_maybeCount[MAXJ];      /* blocking posts made after POOL_free was entered: POOL_add has no return value, the job may or may not have been queued */
+static volatile int g_freeEntered;  /* the freeing client is about to call POOL_free (set just before the call) */
 static pthread_mutex_t g_mon = PTHREAD_MUTEX_INITIALIZER;
 static char g_fail[512];
 static void fail(const char* fmt, ...) { va_list ap; pthread_mutex_lock(&g_mon); if (!g_fail[0]) { va_start(ap, fmt); vsnprintf(g_fail, sizeof g_fail, fmt, ap); va_end(ap); } pthread_mutex_unlock(&g_mon); }
@@ -139,8 +142,9 @@ static void do_add(int j, int isTry) {
     if (isTry) { int r = POOL_tryAdd(g_pool, jobfn, (void*)(size_t)j);
         if (r) { pthread_mutex_lock(&g_mon); g_acceptedCount[j]++; pthread_mutex_unlock(&g_mon); }
         logf_("tryret %s %d %d\n", t_name, j, r); }
-    else { POOL_add(g_pool, jobfn, (void*)(size_t)j);
-        pthread_mutex_lock(&g_mon); g_acceptedCount[j]++; pthread_mutex_unlock(&g_mon);
+    else { int const late = __atomic_load_n(&g_freeEntered, __ATOMIC_SEQ_CST);
+        POOL_add(g_pool, jobfn, (void*)(size_t)j);
+        pthread_mutex_lock(&g_mon); if (late) g_maybeCount[j]++; else g_acceptedCount[j]++; pthread_mutex_unlock(&g_mon);
         logf_("addret %s %d\n", t_name, j); }
 }
 static void jobfn(void* o) {
@@ -152,6 +156,8 @@ static void jobfn(void* o) {
         op_t op = g_body[j].ops[k];
         if (op.kind == 's') usleep((unsigned)op.arg * 1000);
         else if (op.kind == 'w') { for (;;) { int d; pthread_mutex_lock(&g_mon); d = g_doneCount[op.arg]; pthread_mutex_unlock(&g_mon); if (d) break; usleep(1000); } }
+        else if (op.kind == 'F') { long n = 0; while (!__atomic_load_n(&g_freeEntered, __ATOMIC_SEQ_CST) && n++ < 20000) usleep(500);   /* at most 10 s: a program without free must not hang */
+            usleep(20000); }                                                     /* POOL_join sets the shutdown flag within microseconds of the call */
         else if (op.kind == 'a' || op.kind == 't') do_add(op.arg, op.kind == 't');
     }
     pthread_mutex_lock(&g_mon); g_doneCount[j]++; pthread_mutex_unlock(&g_mon);
@@ -176,7 +182,8 @@ static void run_client(int ci) {
             case 'r': { int rc = POOL_resize(g_pool, (size_t)op.arg); logf_("resizeret %s %d %d\n", t_name, op.arg, rc); break; }
             case 'b': { int c; for (c = 1; c < g_nclients; c++) if (g_cthreads[c]) { pthread_join(g_cthreads[c], NULL); g_cthreads[c] = 0; } break; }
             case 's': usleep((unsigned)op.arg * 1000); break;
-            case 'f': { int c; for (c = 1; c < g_nclients; c++) if (g_cthreads[c]) { pthread_join(g_cthreads[c], NULL); g_cthreads[c] = 0; }  /* contract: nobody else uses the pool */
+            case 'f': { int c; for (c = 1; c < g_nclients; c++) if (g_cthreads[c]) { pthread_join(g_cthreads[c], NULL); g_cthreads[c] = 0; }  /* no OTHER thread uses the pool; jobs still running on its own workers may (POOL_free joins them first) */
+                __atomic_store_n(&g_freeEntered, 1, __ATOMIC_SEQ_CST);
                 POOL_free(g_pool); g_pool = NULL; logf_("freeret %s\n", t_name); break; }
         }
     }
@@ -194,6 +201,7 @@ static void parse_ops(char* s, prog_t* p) {
         else if (!strcmp(tok, "free")) o.kind = 'f';
         else if (!strcmp(tok, "barrier")) o.kind = 'b';                                   /* wait for the other client threads (no pool call) */
         else if (!strncmp(tok, "sleep:", 6)) { o.kind = 's'; o.arg = atoi(tok + 6); }     /* milliseconds (no pool call) */
+        else if (!strcmp(tok, "waitfree")) o.kind = 'F';                                   /* job body: wait until POOL_free has been entered (no pool call) */
         else if (!strncmp(tok, "waitdone:", 9)) { o.kind = 'w'; o.arg = atoi(tok + 9); }  /* spin until job finished (no pool call) */
         else continue;
         p->ops[p->n++] = o;
@@ -222,8 +230,8 @@ int main(void) {
     if (g_pool) { for (c = 1; c < g_nclients; c++) if (g_cthreads[c]) pthread_join(g_cthreads[c], NULL); }
     /* final monitors: only meaningful once the pool was freed (all accepted jobs must have run) */
     for (j = 0; j < MAXJ; j++) {
-        if (g_execCount[j] > g_acceptedCount[j]) fail("job %d executed %d times but accepted %d times", j, g_execCount[j], g_acceptedCount[j]);
-        if (!g_pool && g_execCount[j] != g_acceptedCount[j]) fail("job %d accepted %d times, executed %d times by the time the pool was freed", j, g_acceptedCount[j], g_execCount[j]);
+        if (g_execCount[j] > g_acceptedCount[j] + g_maybeCount[j]) fail("job %d executed %d times but accepted %d times", j, g_execCount[j], g_acceptedCount[j] + g_maybeCount[j]);
+        if (!g_pool && g_execCount[j] < g_acceptedCount[j]) fail("job %d accepted %d times, executed %d times by the time the pool was freed", j, g_acceptedCount[j], g_execCount[j]);
         if (g_doneCount[j] != g_execCount[j]) fail("job %d started %d times, finished %d", j, g_execCount[j], g_doneCount[j]);
     }
     if (!g_pool && (g_joined != g_created || g_joinErrors || g_exitedWorkers != g_created))
